@@ -413,13 +413,13 @@ PLANS["C07"] = {
 PLANS["C08"] = {
     "oom_is_excluded": True,
     "jobs": {
-        "quick": [("", "release", 200000), ("", "dev", 48000)],
-        "thorough": [("", "release", 24000000), ("", "dev", 6000000)],
+        "quick": [("", "release", 1200000), ("", "dev", 240000)],
+        "thorough": [("", "release", 48000000), ("", "dev", 9600000)],
     },
     "rule": "half of the cases: one dictionary entry (all 249 entries = 248 distinct names incl. the canvas plugin, round-robin; immediate words are given source "
-            "text to parse, in 11 surrounding constructs) applied to 0..3 arguments drawn from 37 argument classes (nil, flags, "
+            "text to parse, in 11 surrounding constructs) applied to 0..3 arguments drawn from 38 argument classes (nil, flags, "
             "boundary integers 0 +-1 2^63 2^64 i128/isize/usize extremes, reals incl. NaN and infinities, strings incl. 70-80 byte "
-            "strings with multi-byte characters at the elision boundary, numeric strings, bit-strings aligned / odd / sliced, vectors "
+            "strings with multi-byte characters at the elision boundary, numeric strings, strings of hex digits mixed with ASCII and multi-byte blanks, bit-strings aligned / odd / sliced, vectors "
             "(nested 40 deep, long), maps, tagged values incl. hand-made formatting tags, values read from binary input), through eval, "
             "compile+run or compile+step, with recording on in a third of the cases followed by reverse steps; the other half: token "
             "soup (dictionary words, boundary and malformed literals, arbitrary UTF-8, control-structure fragments, let patterns, "
@@ -434,6 +434,6 @@ PLANS["C08"] = {
                     "exec-piped only runs /bin/cat or a missing program"],
     "require": [need_set("words_reached", 248), need_set("xerr_variants", 22), need("call:eval", 60000), need("call:compile", 60000),
                 need("call:run", 15000), need("call:next", 15000), need("call:rnext", 60000), need("call:pretty_error", 200000),
-                need("call:format_cell", 200000), need("soups:long-lived", 30000), need_set("arity1_class_tuples", 37),
+                need("call:format_cell", 200000), need("soups:long-lived", 30000), need_set("arity1_class_tuples", 38),
                 need_set("arity2_class_tuples", 1000), need_set("arity3_class_tuples", 3000)],
 }
